@@ -331,3 +331,58 @@ def opts_random(r, allow=("transformOn", "optimize", "mergeProps", "enableObject
 def all_bool_opts(keys=("transformOn", "optimize", "mergeProps", "enableObjectSlots")):
     for vals in itertools.product([False, True], repeat=len(keys)):
         yield dict(zip(keys, vals))
+
+
+# ------------------------------------------------------------------------------------------------------------
+# HISTORIES of temporaries: one statement list in which several lowerings need a temporary (`let _slot`) - statements that leave one PENDING for the
+# list itself (P) and nested scopes / functions that need temporaries of their own (N), in every order.  `@` is a running number.
+# ------------------------------------------------------------------------------------------------------------
+TEMP_PENDING = ["const head@ = <Foo>{title@()}</Foo>;", "(<Unk>{obj.render()}</Unk>);", "out.push(<Foo>{g@()}</Foo>, <Bar>{k@()}</Bar>);",
+                "let w@; w@ = <Comp a={<Foo>{h@()}</Foo>}>{f()}</Comp>;", "const frag@ = <><Comp>{f()}</Comp>t</>;"]
+TEMP_NESTED = ["const rows@ = list.map(item => <Comp>{cell(item)}</Comp>);",                        # concise arrows: callback, plain, scoped-slot function child,
+               "const r@ = () => <Foo>{f()}</Foo>;",                                                # v-slots entry, with a temporary in a parameter default, nested,
+               "const t@ = <Foo rows={list}>{row => <Comp>{format(row)}</Comp>}</Foo>;",            # async, object property, inside a call argument
+               "const u@ = <Foo v-slots={{ cell: (c) => <Comp>{f(c)}</Comp> }}/>;",
+               "const d@ = (item, k = <Foo>{g()}</Foo>) => <Comp>{cell(item)}</Comp>;",
+               "const n@ = () => () => <Comp>{f()}</Comp>;",
+               "const a@ = async (i) => <Comp>{f(i)}</Comp>;",
+               "const o@ = { render: (i) => <Comp>{f(i)}</Comp>, m() { return <Foo>{g()}</Foo>; } };",
+               "list.forEach(i => out.push(<Comp>{f(i)}</Comp>));",
+               "const b@ = (i) => { return <Comp>{f(i)}</Comp>; };",                                # block-bodied arrow, function, block, loop, method (+ default), default only
+               "function fn@(i) { return <Comp>{f(i)}</Comp>; }",
+               "if (x) { out.push(<Foo>{k()}</Foo>); }",
+               "for (const it of list) { out.push(<Foo>{it()}</Foo>); }",
+               "class K@ { m(p = <Bar>{g()}</Bar>) { return <Foo>{f(p)}</Foo>; } }",
+               "function pd@(p = <Bar>{g()}</Bar>) { return p; }",
+               "const id@ = (i) => <Comp>{i}</Comp>;"]                                              # a concise arrow that needs no temporary
+TEMP_SCOPES = ["%s", "function scope@() {\n%s\n}", "{\n%s\n}", "const scope@ = () => {\n%s\n};", "class S@ { m() {\n%s\n} }", "for (const e@ of list) {\n%s\n}",
+               "export default function () {\n%s\n}"]
+TEMP_ARRANGE = ["PN", "NP", "PNP", "PPN", "NPN", "N", "PNNP", "NN"]
+
+
+def temp_histories(tier, prefix="th"):
+    """[{id, src}]: TEMP_PENDING x TEMP_NESTED x TEMP_SCOPES x TEMP_ARRANGE (quick: the slices through the first pending statement in module and
+    function scope in full, 1/5 of the rest)"""
+    out = []
+    n = 0
+    for pi, sci, ni, ai in itertools.product(range(len(TEMP_PENDING)), range(len(TEMP_SCOPES)), range(len(TEMP_NESTED)), range(len(TEMP_ARRANGE))):
+        n += 1
+        if tier == "quick" and not (pi == 0 and sci <= 1) and (pi + sci * 2 + ni * 3 + ai) % 5:
+            continue
+        if tier == "search" and (pi + sci + ni + ai) % 2:
+            continue
+        k = [0]
+        def inst(t):
+            k[0] += 1
+            return t.replace("@", str(k[0]))
+        ps = [TEMP_PENDING[pi], TEMP_PENDING[(pi + 2) % len(TEMP_PENDING)]]
+        ns = [TEMP_NESTED[ni], TEMP_NESTED[(ni * 3 + 5) % len(TEMP_NESTED)]]
+        body, np_, nn = [], 0, 0
+        for ch in TEMP_ARRANGE[ai]:
+            if ch == "P":
+                body.append(inst(ps[np_ % 2])); np_ += 1
+            else:
+                body.append(inst(ns[nn % 2])); nn += 1
+        src = PRELUDE + inst(TEMP_SCOPES[sci]).replace("%s", "\n".join(body)) + "\n"
+        out.append({"id": "%s%d" % (prefix, n), "src": src})
+    return out
